@@ -1411,6 +1411,67 @@ def r16_8(ctx, allocs=None):
     ctx.count('local_containers', n)
 
 
+def r16_9(ctx, cg):
+    """what a function hands out through an out-parameter (`T** out`) it does not release
+    behind the caller's back: a call that frees `*out` is followed, on every path to a
+    return, by an assignment to `*out` (NULL or a replacement).  Otherwise the caller is
+    left holding a dangling pointer - and the callers of libyara's constructors clean up
+    whatever the out-parameter holds when the call fails (use after free, double free)."""
+    prog = ctx.prog
+    from .C14 import canon
+    esc = param_escape_summary(prog, cg)
+    n_sites = 0
+    for f in prog.fns():
+        if not (f.file.startswith('libyara/') or ctx.fixture):
+            continue
+        outs = [p['name'] for p in f.params if p.get('type', '').replace(' ', '').endswith('**')]
+        if not outs:
+            continue
+        sites = []
+        for c in f.calls():
+            callee = c.get('callee')
+            for j, a in enumerate(f.call_args(c)):
+                a = cu.strip_casts(f, a)
+                if a is None or a['k'] != 'un' or a['op'] != '*':
+                    continue
+                b = cu.strip_casts(f, f.kid(a, 0))
+                if b is None or b['k'] != 'ref' or b['name'] not in outs:
+                    continue
+                frees = callee in RELEASERS and RELEASERS[callee] == j
+                if not frees:
+                    for t in cg.targets(f, c):
+                        g = prog.fn(t, f.tu)
+                        if g is not None and esc[(g.tu.name, g.name)].get(j) == 'free':
+                            frees = True
+                if frees:
+                    sites.append((c, b['name']))
+        for k, (c, P) in enumerate(sorted(sites, key=lambda x: (x[0].get('l', 0), x[0]['i']))):
+            n_sites += 1
+            nb = f.block_of(c)
+            bad = []
+            tgt = '*%s' % P
+
+            def step(n, facts, tgt=tgt):
+                if n['k'] == 'bin' and n['op'] == '=' and canon(f, f.kid(n, 0)) == tgt:
+                    return None
+                if n['k'] == 'ret':
+                    bad.append(n)
+                    return None
+                return facts
+            try:
+                paths.explore(f, set(), step, None, start_block=nb[0], start_index=nb[1] + 1, max_states=512)
+            except paths.Budget:
+                ctx.note('R16.9 %s: budget exceeded (not decided)' % f.name)
+                continue
+            ctx.ob('R16.9', '%s:%s(*%s)#%d:out-parameter-reset-after-release' % (f.name, c.get('callee'), P, k),
+                   not bad, f.loc(bad[0]) if bad else f.loc(c),
+                   '*%s is assigned again on every path after it was released' % P if not bad else
+                   '%s releases *%s (at %s) and returns here with *%s still pointing to the freed object: '
+                   'the caller, which cleans up what the out-parameter holds, frees it again' % (
+                       f.name, P, f.loc(c), P))
+    ctx.count('out_parameter_releases', n_sites)
+
+
 def _fx(which, **kw):
     def runner(ctx):
         cg, rc, allocs, nullable = _all(ctx)
@@ -1428,6 +1489,8 @@ def _fx(which, **kw):
             r16_7(ctx)
         elif which == 8:
             r16_8(ctx)
+        elif which == 9:
+            r16_9(ctx, cg)
         else:
             r16_5(ctx)
     d = {'src': 'C16/errs.c', 'run': runner}
@@ -1445,6 +1508,7 @@ FIXTURES = {
                  expect_ok='guard_before_use:t#0:guard-precedes-use'),
     'R16.6': _fx(6, expect='wrap_bad:thing_acquire(t):released-on-failure',
                  expect_ok='wrap_good:thing_acquire(t):released-on-failure'),
+    'R16.9': _fx(9, expect='out_dangling:yr_free(*out)#0', expect_ok='out_reset:yr_free(*out)#0'),
 }
 
 
@@ -1461,6 +1525,8 @@ def run(ctx):
     ctx.floor('R16.7', 200)
     r16_8(ctx, allocs)
     ctx.floor('R16.8', 3)
+    r16_9(ctx, cg)
+    ctx.floor('R16.9', 10)
     ctx.floor('R16.1', 1200)
     ctx.floor('R16.2', 180)
     ctx.floor('R16.3', 4)
